@@ -1,7 +1,1011 @@
-(** Proofs about Model/Lifecycle.v (property C18). *)
+(** Proofs about Model/Lifecycle.v (property C18): store algebra, the installed-client specification and
+    the lifecycle theorems.  Statements are collected in Props/C18.v. *)
 From Teleport Require Import Base.Bytes Base.Outcome Base.AList Model.Lifecycle.
 Local Open Scope N_scope.
 
-(** A failed step (error or panic) leaves the whole state untouched. *)
+(** * Decidable equalities *)
+Lemma h_eqb_spec a b : reflect (a = b) (h_eqb a b).
+Proof.
+  destruct a as [a1 a2], b as [b1 b2]; unfold h_eqb; cbn.
+  destruct (N.eqb_spec a1 b1), (N.eqb_spec a2 b2); cbn; constructor; congruence.
+Qed.
+
+Lemma h_eqb_refl a : h_eqb a a = true.
+Proof. destruct (h_eqb_spec a a); congruence. Qed.
+
+Lemma ckey_eqb_spec a b : reflect (a = b) (ckey_eqb a b).
+Proof.
+  destruct a, b; cbn; try (constructor; congruence);
+    try (destruct (h_eqb_spec h h0); constructor; congruence).
+  - destruct (bytes_eqb_spec hash hash0), (N.eqb_spec n n0); cbn; constructor; congruence.
+  - destruct (bytes_eqb_spec root root0), (N.eqb_spec n n0); cbn; constructor; congruence.
+Qed.
+
+Lemma ckey_eqb_refl a : ckey_eqb a a = true.
+Proof. destruct (ckey_eqb_spec a a); congruence. Qed.
+
+Lemma ckey_eqb_sym a b : ckey_eqb a b = ckey_eqb b a.
+Proof. destruct (ckey_eqb_spec a b), (ckey_eqb_spec b a); congruence. Qed.
+
+Lemma ctype_eqb_spec a b : reflect (a = b) (ctype_eqb a b).
+Proof. destruct a, b; cbn; constructor; congruence. Qed.
+
+Lemma ctype_eqb_refl a : ctype_eqb a a = true.
+Proof. destruct a; reflexivity. Qed.
+
+(** * Store algebra *)
+Lemma sget_sdel_same k s : sget k (sdel k s) = None.
+Proof.
+  induction s as [|[k' v] s IH]; cbn; [reflexivity|].
+  destruct (ckey_eqb_spec k k') as [->|N]; cbn; [exact IH|].
+  destruct (ckey_eqb_spec k k'); [contradiction | exact IH].
+Qed.
+
+Lemma sget_sdel_other k k2 s : k2 <> k -> sget k2 (sdel k s) = sget k2 s.
+Proof.
+  intro N. induction s as [|[k' v] s IH]; cbn; [reflexivity|].
+  destruct (ckey_eqb_spec k k') as [->|N2]; cbn.
+  - destruct (ckey_eqb_spec k2 k'); [contradiction | exact IH].
+  - destruct (ckey_eqb k2 k'); [reflexivity | exact IH].
+Qed.
+
+Lemma sget_sset_same k v s : sget k (sset k v s) = Some v.
+Proof. unfold sset; cbn. rewrite ckey_eqb_refl. reflexivity. Qed.
+
+Lemma sget_sset_other k k2 v s : k2 <> k -> sget k2 (sset k v s) = sget k2 s.
+Proof.
+  intro N. unfold sset; cbn. destruct (ckey_eqb_spec k2 k); [contradiction|]. apply sget_sdel_other; exact N.
+Qed.
+
+Lemma sget_sset k k2 v s : sget k2 (sset k v s) = if ckey_eqb k2 k then Some v else sget k2 s.
+Proof.
+  destruct (ckey_eqb_spec k2 k) as [->|N]; [apply sget_sset_same | apply sget_sset_other; exact N].
+Qed.
+
+Lemma sget_sdel k k2 s : sget k2 (sdel k s) = if ckey_eqb k2 k then None else sget k2 s.
+Proof.
+  destruct (ckey_eqb_spec k2 k) as [->|N]; [apply sget_sdel_same | apply sget_sdel_other; exact N].
+Qed.
+
+Lemma sget_In k s v : sget k s = Some v -> In (k, v) s.
+Proof.
+  induction s as [|[k' v'] s IH]; cbn; [discriminate|].
+  destruct (ckey_eqb_spec k k') as [->|N]; intro H; [left; congruence | right; auto].
+Qed.
+
+Lemma In_sget k v s : In (k, v) s -> exists v', sget k s = Some v'.
+Proof.
+  induction s as [|[k' v'] s IH]; cbn; [contradiction|].
+  intros [E|H].
+  - inversion E; subst. rewrite ckey_eqb_refl. eauto.
+  - destruct (ckey_eqb k k'); eauto.
+Qed.
+
+Lemma In_sdel kv k s : In kv (sdel k s) -> In kv s /\ fst kv <> k.
+Proof.
+  unfold sdel. rewrite filter_In. intros [H1 H2]. split; [exact H1|].
+  destruct (ckey_eqb_spec k (fst kv)); [discriminate | congruence].
+Qed.
+
+Lemma In_sset kv k v s : In kv (sset k v s) -> kv = (k, v) \/ (In kv s /\ fst kv <> k).
+Proof. unfold sset; cbn. intros [E|H]; [left; congruence | right; apply In_sdel; exact H]. Qed.
+
+(** * Whole state *)
+Lemma store_of_with_same st n s : store_of (with_store st n s) n = s.
+Proof. unfold store_of, with_store; cbn. rewrite aget_aset_same. reflexivity. Qed.
+
+Lemma store_of_with_other st n m s : m <> n -> store_of (with_store st n s) m = store_of st m.
+Proof. intro N. unfold store_of, with_store; cbn. rewrite aget_aset_other by exact N. reflexivity. Qed.
+
+Lemma relayers_with st n s : relayers (with_store st n s) = relayers st.
+Proof. reflexivity. Qed.
+
+Lemma now_with st n s : now (with_store st n s) = now st.
+Proof. reflexivity. Qed.
+
+(** * The wrappers *)
 Lemma failed_step_unchanged cf st o : fst (step cf st o) <> 0%nat -> snd (step cf st o) = st.
 Proof. unfold step. destruct (exec cf st o); cbn; intro H; [congruence | reflexivity | reflexivity]. Qed.
+
+Lemma step_ok_iff cf st o st' : step cf st o = (0%nat, st') <-> exec cf st o = Ok st'.
+Proof.
+  unfold step. destruct (exec cf st o); split; intro H; try discriminate; inversion H; reflexivity.
+Qed.
+
+(** * Names *)
+Lemma create_rejected cf st p :
+  valid_name (p_name p) = false \/ has_client st (p_name p) = true -> step cf st (Create p) = (1%nat, st).
+Proof.
+  intros [H|H]; unfold step, exec; rewrite H; cbn; [reflexivity|].
+  destruct (valid_name (p_name p) && p_validate p); reflexivity.
+Qed.
+
+(** * What "installed" means *)
+
+(** The proposal's client state is stored, its consensus state is stored at the latest height (none for a
+    TSS client), and the metadata the type's verification and update functions read for that height exist. *)
+Definition metadata (tnow : N) (c : client_state) (s : cstore) : Prop :=
+  match c with
+  | ClTm latest _ _ _ _ => sget (KPTime latest) s = Some (VTime tnow) /\ sget (KIter latest) s = Some (VRefCons latest)
+  | ClBsc hd _ _ _ _ =>
+      exists sg vs, eh_signer hd = Some sg /\ eh_vals hd = Some vs /\
+                    sget (KSigner (eh_height hd)) s = Some (VAddr sg) /\ sget KPending s = Some (VVals vs)
+  | ClEth hd _ _ _ =>
+      sget (KHIdx (eh_hash hd) (snd (eh_height hd))) s = Some (VHeader hd) /\
+      sget (KRootMain (eh_root hd) (snd (eh_height hd))) s = Some (VRefHIdx (eh_hash hd) (snd (eh_height hd)))
+  | ClTss _ _ => True
+  end.
+
+Definition installed (tnow : N) (c : client_state) (cns : cons_state) (s : cstore) : Prop :=
+  sget KClient s = Some (VClient c) /\
+  (if ctype_eqb (type_of c) TSS then True else sget (KCons (latest_of c)) s = Some (VCons cns)) /\
+  metadata tnow c s.
+
+(** The store a create (and a toggle, which starts from an empty store) leaves: exactly these entries. *)
+Definition fresh_store (tnow : N) (c : client_state) (cns : cons_state) : cstore :=
+  match c with
+  | ClTm l _ _ _ _ => [(KCons l, VCons cns); (KIter l, VRefCons l); (KPTime l, VTime tnow); (KClient, VClient c)]
+  | ClBsc hd _ _ _ _ =>
+      [(KCons (eh_height hd), VCons cns);
+       (KPending, VVals (match eh_vals hd with Some vs => vs | None => [] end));
+       (KSigner (eh_height hd), VAddr (match eh_signer hd with Some sg => sg | None => [] end));
+       (KClient, VClient c)]
+  | ClEth hd _ _ _ =>
+      [(KCons (eh_height hd), VCons cns);
+       (KRootMain (eh_root hd) (snd (eh_height hd)), VRefHIdx (eh_hash hd) (snd (eh_height hd)));
+       (KHIdx (eh_hash hd) (snd (eh_height hd)), VHeader hd);
+       (KClient, VClient c)]
+  | ClTss _ _ => [(KClient, VClient c)]
+  end.
+
+(** Content the type can be initialised with (what Initialize / UpgradeState check). *)
+Definition installable (c : client_state) : Prop :=
+  match c with
+  | ClBsc hd epoch _ _ _ =>
+      epoch <> 0 /\ snd (eh_height hd) mod epoch = 0 /\ eh_signer hd = Some (eh_coinbase hd) /\ exists vs, eh_vals hd = Some vs
+  | _ => True
+  end.
+
+Definition well_typed (p : proposal) : Prop := cs_type (p_cons p) = type_of (p_client p).
+
+Lemma fresh_store_installed tnow c cns : installable c -> installed tnow c cns (fresh_store tnow c cns).
+Proof.
+  intro I. destruct c as [l t d y r | hd e v t r | hd b t r | a r]; unfold installed; cbn.
+  - rewrite h_eqb_refl. cbn. repeat split; reflexivity.
+  - destruct I as (_ & _ & Hs & vs & Hv). rewrite Hs, Hv. rewrite h_eqb_refl; cbn.
+    repeat split; try reflexivity. exists (eh_coinbase hd), vs. repeat split; reflexivity.
+  - rewrite h_eqb_refl, !bytes_eqb_refl, !N.eqb_refl. cbn. repeat split; reflexivity.
+  - repeat split.
+Qed.
+
+(** * Create *)
+Lemma create_client_fresh tnow c cns :
+  installable c -> cs_type cns = type_of c ->
+  create_client tnow c cns [] = Ok (fresh_store tnow c cns).
+Proof.
+  intros I T. unfold create_client.
+  destruct c as [l t d y r | hd e v t r | hd b t r | a r]; cbn in *; rewrite T; cbn.
+  - reflexivity.
+  - destruct I as (He & Hm & Hs & vs & Hv). unfold bsc_install.
+    destruct (N.eqb_spec e 0); [contradiction|]. rewrite Hm. cbn. rewrite Hs, bytes_eqb_refl, Hv. cbn. reflexivity.
+  - reflexivity.
+  - reflexivity.
+Qed.
+
+(** In the states the lifecycle reaches, a chain name without client has an empty client store. *)
+Definition wf_state (st : state) : Prop := forall n, has_client st n = false -> store_of st n = [].
+
+Lemma create_succeeds cf st p :
+  valid_name (p_name p) = true -> p_validate p = true -> has_client st (p_name p) = false ->
+  store_of st (p_name p) = [] -> well_typed p -> installable (p_client p) ->
+  exec cf st (Create p) = Ok (with_store st (p_name p) (fresh_store (now st) (p_client p) (p_cons p))).
+Proof.
+  intros Hn Hv Hc He Ht Hi. unfold exec. rewrite Hn, Hv, Hc. cbn.
+  unfold types_agree. rewrite Ht, ctype_eqb_refl, orb_true_r. cbn.
+  rewrite He, create_client_fresh by assumption. reflexivity.
+Qed.
+
+(** * Usability of an installed client: Status and the gates of VerifyPacketCommitment *)
+Definition fresh (t : N) (c : client_state) (cns : cons_state) : Prop :=
+  match c with
+  | ClTm _ trusting _ _ _ => t < cs_ts cns + trusting
+  | ClBsc _ _ _ trusting _ | ClEth _ _ trusting _ => evm_expired (cs_ts cns) trusting t = false
+  | ClTss _ _ => True
+  end.
+
+Lemma get_cons_of t h s cns : sget (KCons h) s = Some (VCons cns) -> cs_type cns = t -> get_cons t h s = Some cns.
+Proof. intros H T. unfold get_cons. rewrite H, T, ctype_eqb_refl. reflexivity. Qed.
+
+Lemma installed_active tnow t c cns s :
+  installed tnow c cns s -> cs_type cns = type_of c -> fresh t c cns -> status t c s = 0%nat.
+Proof.
+  intros (Hc & Hk & Hm) T F.
+  destruct c as [l tr d y r | hd e v tr r | hd b tr r | a r]; cbn in *.
+  - rewrite (get_cons_of TM l s cns Hk T). destruct (N.leb_spec (cs_ts cns + tr) t); [lia | reflexivity].
+  - rewrite (get_cons_of BSC _ s cns Hk T), F. reflexivity.
+  - rewrite (get_cons_of ETH _ s cns Hk T), F. reflexivity.
+  - reflexivity.
+Qed.
+
+Lemma sub64_same a : sub64 a a = 0.
+Proof.
+  unfold sub64. pose proof (N.div_mod' a two64) as D.
+  assert (L : a mod two64 < two64) by (apply N.mod_lt; discriminate).
+  assert (E : a + two64 - a mod two64 = (a / two64 + 1) * two64).
+  { set (q := a / two64) in *. set (m := a mod two64) in *. clearbody q m. unfold two64 in *. lia. }
+  rewrite E. apply N.mod_mul. discriminate.
+Qed.
+
+Lemma h_lt_irrefl h : h_lt h h = false.
+Proof. unfold h_lt. rewrite N.eqb_refl. apply N.ltb_irrefl. Qed.
+
+(** The outcome of VerifyPacketCommitment with an honest proof AT THE INSTALLED HEIGHT, at any later block
+    time [t]: never "no consensus state" (3) nor "processed time missing" (4) nor "above the latest height"
+    (1); only the delay (5) can stand between the proof and its verification against the installed root. *)
+Definition installed_gate (tnow t : N) (fx prf : bytes) (c : client_state) (cns : cons_state) : nat :=
+  match c with
+  | ClTm _ _ _ delay _ => if t <? add64 tnow delay then 5%nat else root_gate fx cns
+  | ClBsc _ _ vals _ _ => 5%nat                                      (* at least one more block is required *)
+  | ClEth _ bd _ _ => if 0 <? bd then 5%nat else root_gate fx cns
+  | ClTss addr _ => if bytes_eqb prf addr then 0%nat else 7%nat
+  end.
+
+Lemma installed_gate_ok tnow t fx prf c cns s :
+  installed tnow c cns s -> cs_type cns = type_of c ->
+  gate t fx prf c s (latest_of c) = installed_gate tnow t fx prf c cns.
+Proof.
+  intros (Hc & Hk & Hm) T.
+  destruct c as [l tr d y r | hd e v tr r | hd b tr r | a r]; cbn in *.
+  - rewrite h_lt_irrefl, (get_cons_of TM l s cns Hk T). destruct Hm as [Hp _]. rewrite Hp. reflexivity.
+  - rewrite h_lt_irrefl, N.eqb_refl, (get_cons_of BSC _ s cns Hk T), sub64_same. cbn.
+    generalize (lenN v / 2); intro q. destruct (N.ltb_spec 0 (q + 1)); [reflexivity | lia].
+  - rewrite h_lt_irrefl, N.eqb_refl, (get_cons_of ETH _ s cns Hk T), sub64_same. reflexivity.
+  - reflexivity.
+Qed.
+
+(** Tendermint: once the delay has passed the honest proof is checked against the installed root. *)
+Lemma installed_gate_tm_after tnow t fx prf l tr d y r cns :
+  tnow + y < two64 -> tnow + y <= t ->
+  installed_gate tnow t fx prf (ClTm l tr d y r) cns = root_gate fx cns.
+Proof.
+  intros B L. cbn. unfold add64. rewrite N.mod_small by exact B.
+  destruct (N.ltb_spec t (tnow + y)); [lia | reflexivity].
+Qed.
+
+(** * Characterisation of create on an empty store *)
+Lemma bsc_install_ok hd e s s' :
+  bsc_install hd e s = Ok s' ->
+  e <> 0 /\ snd (eh_height hd) mod e = 0 /\ eh_signer hd = Some (eh_coinbase hd) /\
+  exists vs, eh_vals hd = Some vs /\
+             s' = sset KPending (VVals vs) (sset (KSigner (eh_height hd)) (VAddr (eh_coinbase hd)) s).
+Proof.
+  unfold bsc_install. destruct (N.eqb_spec e 0); [discriminate|].
+  destruct (N.eqb_spec (snd (eh_height hd) mod e) 0) as [M|M]; cbn; [|discriminate].
+  destruct (eh_signer hd) as [sg|]; [|discriminate].
+  destruct (bytes_eqb_spec sg (eh_coinbase hd)) as [->|]; cbn; [|discriminate].
+  destruct (eh_vals hd) as [vs|]; [|discriminate].
+  intro H; inversion H; subst. repeat split; try assumption. exists vs. split; reflexivity.
+Qed.
+
+Lemma create_client_nil_ok tnow c cns s' :
+  cs_type cns = type_of c -> create_client tnow c cns [] = Ok s' ->
+  installable c /\ s' = fresh_store tnow c cns.
+Proof.
+  intros T. unfold create_client.
+  destruct c as [l t d y r | hd e v t r | hd b t r | a r]; cbn in *; rewrite T; cbn.
+  - intro H; inversion H. split; [exact I | reflexivity].
+  - destruct (bsc_install hd e (sset KClient (VClient (ClBsc hd e v t r)) [])) eqn:E; cbn; try discriminate.
+    intro H; inversion H; subst.
+    apply bsc_install_ok in E. destruct E as (He & Hm & Hs & vs & Hv & ->).
+    split; [repeat split; eauto|]. rewrite Hs, Hv. reflexivity.
+  - intro H; inversion H. split; [exact I | reflexivity].
+  - intro H; inversion H. split; [exact I | reflexivity].
+Qed.
+
+Lemma create_spec cf st p st' :
+  f_cons_type_check cf = true -> wf_state st ->
+  exec cf st (Create p) = Ok st' ->
+  valid_name (p_name p) = true /\ p_validate p = true /\ has_client st (p_name p) = false /\
+  well_typed p /\ installable (p_client p) /\
+  st' = with_store st (p_name p) (fresh_store (now st) (p_client p) (p_cons p)).
+Proof.
+  intros Hf W. unfold exec.
+  destruct (valid_name (p_name p)) eqn:Hn; [|discriminate].
+  destruct (p_validate p) eqn:Hv; [|discriminate]. cbn.
+  destruct (has_client st (p_name p)) eqn:Hc; [discriminate|].
+  unfold types_agree. rewrite Hf. cbn.
+  destruct (ctype_eqb_spec (cs_type (p_cons p)) (type_of (p_client p))) as [T|]; [|discriminate]. cbn.
+  rewrite (W _ Hc).
+  destruct (create_client (now st) (p_client p) (p_cons p) []) eqn:E; cbn; try discriminate.
+  intro H; inversion H; subst.
+  apply create_client_nil_ok in E; [|exact T]. destruct E as [I ->].
+  repeat split; assumption.
+Qed.
+
+(** * Toggle (repaired: the new type's Initialize on an emptied store) *)
+Lemma toggle_client_cleared cf tnow c cns s old :
+  f_toggle_new cf = true -> f_toggle_clear cf = true ->
+  sget KClient s = Some (VClient old) -> ctype_eqb (type_of old) (type_of c) = false ->
+  toggle_client cf tnow c cns s = create_client tnow c cns [].
+Proof.
+  intros F1 F2 Ho Ht. unfold toggle_client, create_client. rewrite Ho, Ht, F1, F2. reflexivity.
+Qed.
+
+Lemma toggle_spec cf st p st' :
+  f_toggle_new cf = true -> f_toggle_clear cf = true -> f_cons_type_check cf = true ->
+  exec cf st (Toggle p) = Ok st' ->
+  exists old, sget KClient (store_of st (p_name p)) = Some (VClient old) /\ type_of old <> type_of (p_client p) /\
+    valid_name (p_name p) = true /\ p_validate p = true /\ well_typed p /\ installable (p_client p) /\
+    st' = with_store st (p_name p) (fresh_store (now st) (p_client p) (p_cons p)).
+Proof.
+  intros F1 F2 F3. unfold exec.
+  destruct (valid_name (p_name p)) eqn:Hn; [|discriminate].
+  destruct (p_validate p) eqn:Hv; [|discriminate]. cbn.
+  destruct (has_client st (p_name p)) eqn:Hc; [|discriminate]. cbn.
+  unfold types_agree. rewrite F3. cbn.
+  destruct (ctype_eqb_spec (cs_type (p_cons p)) (type_of (p_client p))) as [T|]; [|discriminate]. cbn.
+  destruct (toggle_client cf (now st) (p_client p) (p_cons p) (store_of st (p_name p))) eqn:E; cbn; try discriminate.
+  intro H; inversion H; subst. clear H.
+  unfold toggle_client in E.
+  destruct (sget KClient (store_of st (p_name p))) as [[old| | | | | | |]|] eqn:Ho; try discriminate.
+  destruct (ctype_eqb_spec (type_of old) (type_of (p_client p))) as [|Nt]; [discriminate|].
+  rewrite F1, F2 in E.
+  change (create_client (now st) (p_client p) (p_cons p) [] = Ok a) in E.
+  apply create_client_nil_ok in E; [|exact T]. destruct E as [I ->].
+  exists old. repeat split; assumption.
+Qed.
+
+Lemma toggle_succeeds cf st p old :
+  f_toggle_new cf = true -> f_toggle_clear cf = true ->
+  valid_name (p_name p) = true -> p_validate p = true ->
+  sget KClient (store_of st (p_name p)) = Some (VClient old) -> type_of old <> type_of (p_client p) ->
+  well_typed p -> installable (p_client p) ->
+  exec cf st (Toggle p) = Ok (with_store st (p_name p) (fresh_store (now st) (p_client p) (p_cons p))).
+Proof.
+  intros F1 F2 Hn Hv Ho Nt T I. unfold exec. rewrite Hn, Hv. cbn.
+  unfold has_client. rewrite Ho. cbn.
+  unfold types_agree. rewrite T, ctype_eqb_refl, orb_true_r. cbn.
+  assert (Ht : ctype_eqb (type_of old) (type_of (p_client p)) = false)
+    by (destruct (ctype_eqb_spec (type_of old) (type_of (p_client p))); [contradiction | reflexivity]).
+  rewrite (toggle_client_cleared cf _ _ _ _ old F1 F2 Ho Ht), create_client_fresh by assumption. reflexivity.
+Qed.
+
+(** * Upgrade *)
+Ltac sg := repeat (rewrite sget_sset; cbn [ckey_eqb]); rewrite ?h_eqb_refl, ?bytes_eqb_refl, ?N.eqb_refl; cbn [andb].
+
+Lemma upgrade_client_ok cf tnow c cns s s' :
+  f_upgrade_tss_nocons cf = true -> f_tm_upgrade_meta cf = true ->
+  upgrade_client cf tnow c cns s = Ok s' ->
+  exists old, sget KClient s = Some (VClient old) /\ type_of old = type_of c /\ installed tnow c cns s'.
+Proof.
+  intros F1 F2. unfold upgrade_client.
+  destruct (sget KClient s) as [[old| | | | | | |]|] eqn:Ho; try discriminate.
+  destruct (ctype_eqb_spec (type_of old) (type_of c)) as [Te|]; [|discriminate]. cbn.
+  destruct (upgrade_state cf tnow c s) as [s1| |] eqn:E; cbn; try discriminate.
+  rewrite F1. intro H; inversion H; subst; clear H.
+  exists old. split; [reflexivity|]. split; [exact Te|].
+  destruct c as [l t d y r | hd e v t r | hd b t r | a r]; cbn in *.
+  - rewrite F2 in E. inversion E; subst. unfold installed, put_cons, set_tm_meta; cbn. repeat split; sg; reflexivity.
+  - assert (X : exists s0, bsc_install hd e s0 = Ok s1).
+    { destruct (e =? 0); [discriminate|]. destruct (negb (snd (eh_height hd) mod e =? 0)); [discriminate|].
+      destruct (prune_target BSC t tnow s) as [pt| |]; cbn in E; try discriminate. eauto. }
+    destruct X as [s0 X]. apply bsc_install_ok in X. destruct X as (He & Hm & Hs & vs & Hv & ->).
+    unfold installed, put_cons; cbn. repeat split; sg; try reflexivity.
+    exists (eh_coinbase hd), vs. repeat split; try assumption; sg; reflexivity.
+  - inversion E; subst. unfold installed, put_cons, eth_install; cbn. repeat split; sg; reflexivity.
+  - inversion E; subst. unfold installed; cbn. repeat split; sg; reflexivity.
+Qed.
+
+Lemma upgrade_spec cf st p st' :
+  f_upgrade_tss_nocons cf = true -> f_tm_upgrade_meta cf = true -> f_cons_type_check cf = true ->
+  exec cf st (Upgrade p) = Ok st' ->
+  exists old s', sget KClient (store_of st (p_name p)) = Some (VClient old) /\ type_of old = type_of (p_client p) /\
+    valid_name (p_name p) = true /\ p_validate p = true /\ well_typed p /\
+    st' = with_store st (p_name p) s' /\ installed (now st) (p_client p) (p_cons p) s'.
+Proof.
+  intros F1 F2 F3. unfold exec.
+  destruct (valid_name (p_name p)) eqn:Hn; [|discriminate].
+  destruct (p_validate p) eqn:Hv; [|discriminate]. cbn.
+  unfold types_agree. rewrite F3. cbn.
+  destruct (ctype_eqb_spec (cs_type (p_cons p)) (type_of (p_client p))) as [T|]; [|discriminate]. cbn.
+  destruct (upgrade_client cf (now st) (p_client p) (p_cons p) (store_of st (p_name p))) as [s'| |] eqn:E; cbn; try discriminate.
+  intro H; inversion H; subst; clear H.
+  apply upgrade_client_ok in E; try assumption. destruct E as (old & Ho & Te & I).
+  exists old, s'. split; [exact Ho|]. split; [exact Te|]. split; [reflexivity|]. split; [reflexivity|].
+  split; [exact T|]. split; [reflexivity | exact I].
+Qed.
+
+(** * Shape of every successful step; [wf_state] is an invariant *)
+Lemma initialize_keeps_client tnow c cns s s' : initialize tnow c cns s = Ok s' -> sget KClient s' = sget KClient s.
+Proof.
+  destruct c as [l t d y r | hd e v t r | hd b t r | a r]; cbn.
+  - destruct (ctype_eqb (cs_type cns) TM); [|discriminate]. intro H; inversion H. unfold set_tm_meta. sg. reflexivity.
+  - intro H. apply bsc_install_ok in H. destruct H as (_ & _ & _ & vs & _ & ->). sg. reflexivity.
+  - intro H; inversion H. unfold eth_install. sg. reflexivity.
+  - intro H; inversion H. reflexivity.
+Qed.
+
+Lemma create_client_has tnow c cns s s' : create_client tnow c cns s = Ok s' -> sget KClient s' = Some (VClient c).
+Proof.
+  unfold create_client. destruct (initialize tnow c cns (sset KClient (VClient c) s)) as [s1| |] eqn:E; cbn; try discriminate.
+  apply initialize_keeps_client in E. intro H; inversion H; subst.
+  destruct (ctype_eqb (cs_type cns) TSS); unfold put_cons; sg; rewrite E; sg; reflexivity.
+Qed.
+
+Lemma toggle_client_has cf tnow c cns s s' : toggle_client cf tnow c cns s = Ok s' -> sget KClient s' = Some (VClient c).
+Proof.
+  unfold toggle_client.
+  destruct (sget KClient s) as [[old| | | | | | |]|]; try discriminate.
+  destruct (ctype_eqb (type_of old) (type_of c)); [discriminate|].
+  destruct (f_toggle_new cf).
+  - destruct (initialize tnow c cns _) as [s1| |] eqn:E; cbn; try discriminate.
+    apply initialize_keeps_client in E. intro H; inversion H; subst.
+    destruct (ctype_eqb (cs_type cns) TSS); unfold put_cons; sg; rewrite E; sg; reflexivity.
+  - destruct (initialize tnow old cns _) as [s1| |] eqn:E; cbn; try discriminate.
+    apply initialize_keeps_client in E. intro H; inversion H; subst.
+    unfold put_cons; sg; rewrite E; sg; reflexivity.
+Qed.
+
+Lemma upgrade_client_has cf tnow c cns s s' : upgrade_client cf tnow c cns s = Ok s' -> sget KClient s' = Some (VClient c).
+Proof.
+  unfold upgrade_client.
+  destruct (sget KClient s) as [[old| | | | | | |]|]; try discriminate.
+  destruct (negb (ctype_eqb (type_of old) (type_of c))); [discriminate|].
+  destruct (upgrade_state cf tnow c s) as [s1| |]; cbn; try discriminate.
+  intro H; inversion H; subst.
+  destruct (f_upgrade_tss_nocons cf && ctype_eqb (type_of c) TSS); unfold put_cons; sg; reflexivity.
+Qed.
+
+Lemma keeper_update_has cf tnow h s s' : keeper_update cf tnow h s = Ok s' -> exists c, sget KClient s' = Some (VClient c).
+Proof.
+  unfold keeper_update.
+  destruct (sget KClient s) as [[c| | | | | | |]|]; try discriminate.
+  destruct (negb (Nat.eqb (status tnow c s) 0)); [discriminate|].
+  destruct (check_header_and_update tnow c h s) as [[[c' cns] s1]| |]; cbn; try discriminate.
+  destruct (hdr_height cf h) as [hh|]; [|discriminate].
+  intro H; inversion H; subst. exists c'. destruct cns; sg; reflexivity.
+Qed.
+
+Lemma exec_shape cf st o st' :
+  exec cf st o = Ok st' ->
+  (exists n s', st' = with_store st n s' /\ sget KClient s' <> None) \/ clients st' = clients st.
+Proof.
+  destruct o as [p|p|p|addr chains wfb|name h signer vb|dt]; unfold exec.
+  - destruct (negb (valid_name (p_name p) && p_validate p)); [discriminate|].
+    destruct (has_client st (p_name p)); [discriminate|].
+    destruct (negb (types_agree cf p)); [discriminate|].
+    destruct (create_client _ _ _ _) as [s'| |] eqn:E; cbn; try discriminate.
+    intro H; inversion H. left. exists (p_name p), s'. split; [reflexivity|]. rewrite (create_client_has _ _ _ _ _ E). discriminate.
+  - destruct (negb (valid_name (p_name p) && p_validate p)); [discriminate|].
+    destruct (negb (types_agree cf p)); [discriminate|].
+    destruct (upgrade_client _ _ _ _ _) as [s'| |] eqn:E; cbn; try discriminate.
+    intro H; inversion H. left. exists (p_name p), s'. split; [reflexivity|]. rewrite (upgrade_client_has _ _ _ _ _ _ E). discriminate.
+  - destruct (negb (valid_name (p_name p) && p_validate p)); [discriminate|].
+    destruct (negb (has_client st (p_name p))); [discriminate|].
+    destruct (negb (types_agree cf p)); [discriminate|].
+    destruct (toggle_client _ _ _ _ _) as [s'| |] eqn:E; cbn; try discriminate.
+    intro H; inversion H. left. exists (p_name p), s'. split; [reflexivity|]. rewrite (toggle_client_has _ _ _ _ _ _ E). discriminate.
+  - destruct (negb (wfb && forallb valid_name chains)); [discriminate|]. intro H; inversion H. right. reflexivity.
+  - destruct (negb vb); [discriminate|].
+    destruct (negb _); [discriminate|].
+    destruct (sget KClient (store_of st name)) as [[c| | | | | | |]|]; try discriminate.
+    destruct (negb _); [discriminate|].
+    destruct (keeper_update _ _ _ _) as [s'| |] eqn:E; cbn; try discriminate.
+    intro H; inversion H. left. exists name, s'. split; [reflexivity|].
+    destruct (keeper_update_has _ _ _ _ _ E) as [c' Hc]. rewrite Hc. discriminate.
+  - intro H; inversion H. right. reflexivity.
+Qed.
+
+Lemma wf_state_step cf st o : wf_state st -> wf_state (snd (step cf st o)).
+Proof.
+  intro W. unfold step. destruct (exec cf st o) as [st'| |] eqn:E; cbn; try exact W.
+  apply exec_shape in E. destruct E as [(n & s' & -> & Hc)|Hc].
+  - intros m Hm. destruct (bytes_eqb_spec m n) as [->|N].
+    + unfold has_client in Hm. rewrite store_of_with_same in Hm. destruct (sget KClient s'); [discriminate | contradiction].
+    + rewrite store_of_with_other by exact N. apply W.
+      unfold has_client in *. rewrite store_of_with_other in Hm by exact N. exact Hm.
+  - intros m Hm. unfold has_client, store_of in *. rewrite Hc in *. apply W. exact Hm.
+Qed.
+
+Lemma wf_state_empty t : wf_state (empty_state t).
+Proof. intros n _. reflexivity. Qed.
+
+Lemma wf_state_run cf os : forall st, wf_state st -> wf_state (run cf st os).
+Proof. induction os as [|o os IH]; intros st W; cbn; [exact W|]. apply IH, wf_state_step, W. Qed.
+
+(** Nothing but the step's own client store (or the registry, or the clock) changes. *)
+Lemma exec_frame cf st o st' :
+  exec cf st o = Ok st' ->
+  match o with
+  | Create p | Upgrade p | Toggle p =>
+      relayers st' = relayers st /\ now st' = now st /\ forall m, m <> p_name p -> store_of st' m = store_of st m
+  | Update name _ _ _ =>
+      relayers st' = relayers st /\ now st' = now st /\ forall m, m <> name -> store_of st' m = store_of st m
+  | Register _ _ _ => now st' = now st /\ clients st' = clients st
+  | Tick dt => relayers st' = relayers st /\ clients st' = clients st /\ now st' = now st + dt
+  end.
+Proof.
+  destruct o as [p|p|p|addr chains wfb|name h signer vb|dt]; unfold exec.
+  - destruct (negb _); [discriminate|]. destruct (has_client _ _); [discriminate|]. destruct (negb _); [discriminate|].
+    destruct (create_client _ _ _ _); cbn; try discriminate. intro H; inversion H.
+    repeat split. intros m N. apply store_of_with_other; exact N.
+  - destruct (negb _); [discriminate|]. destruct (negb _); [discriminate|].
+    destruct (upgrade_client _ _ _ _ _); cbn; try discriminate. intro H; inversion H.
+    repeat split. intros m N. apply store_of_with_other; exact N.
+  - destruct (negb _); [discriminate|]. destruct (negb _); [discriminate|]. destruct (negb _); [discriminate|].
+    destruct (toggle_client _ _ _ _ _); cbn; try discriminate. intro H; inversion H.
+    repeat split. intros m N. apply store_of_with_other; exact N.
+  - destruct (negb _); [discriminate|]. intro H; inversion H. split; reflexivity.
+  - destruct (negb vb); [discriminate|]. destruct (negb _); [discriminate|].
+    destruct (sget KClient (store_of st name)) as [[c| | | | | | |]|]; try discriminate.
+    destruct (negb _); [discriminate|].
+    destruct (keeper_update _ _ _ _); cbn; try discriminate. intro H; inversion H.
+    repeat split. intros m N. apply store_of_with_other; exact N.
+  - intro H; inversion H. repeat split.
+Qed.
+
+(** * Consensus states of one type only: the invariant behind "a valid update succeeds" *)
+
+(** every consensus state entry of the store is a consensus state of type [t] *)
+Definition all_cons (t : ctype) (s : cstore) : Prop :=
+  forall h v, In (KCons h, v) s -> exists cs, v = VCons cs /\ cs_type cs = t.
+
+Lemma all_cons_nil t : all_cons t [].
+Proof. intros h v []. Qed.
+
+Lemma all_cons_sdel t k s : all_cons t s -> all_cons t (sdel k s).
+Proof. intros A h v H. apply In_sdel in H. apply (A h v), H. Qed.
+
+Lemma all_cons_sset_other t k v s : (forall h, k <> KCons h) -> all_cons t s -> all_cons t (sset k v s).
+Proof.
+  intros N A h v' H. apply In_sset in H. destruct H as [E|[H _]]; [|apply (A h v'), H].
+  inversion E; subst. exfalso. apply (N h). reflexivity.
+Qed.
+
+Lemma all_cons_sset_cons t h cs s : cs_type cs = t -> all_cons t s -> all_cons t (sset (KCons h) (VCons cs) s).
+Proof.
+  intros T A h' v' H. apply In_sset in H. destruct H as [E|[H _]]; [|apply (A h' v'), H].
+  inversion E; subst. eauto.
+Qed.
+
+Lemma all_cons_filter t f s : all_cons t s -> all_cons t (filter f s).
+Proof. intros A h v H. apply filter_In in H. apply (A h v), H. Qed.
+
+Lemma all_cons_del_range t rev k : forall start s, all_cons t s -> all_cons t (del_signers_range rev start k s).
+Proof. induction k as [|k IH]; intros start s A; cbn; [exact A|]. apply IH, all_cons_sdel, A. Qed.
+
+Lemma all_cons_get t h s v : all_cons t s -> sget (KCons h) s = Some v -> exists cs, get_cons t h s = Some cs.
+Proof.
+  intros A H. destruct (A h v (sget_In _ _ _ H)) as (cs & -> & T).
+  exists cs. apply get_cons_of; assumption.
+Qed.
+
+(** the first key of the iteration is a key of the store *)
+Lemma hmin_cases a b : hmin a b = a \/ hmin a b = Some b.
+Proof. destruct a as [x|]; cbn; [destruct (h_lt b x)|]; auto. Qed.
+
+Lemma first_cons_acc (s : cstore) : forall acc h,
+  fold_left (fun acc (kv : ckey * value) => match fst kv with KCons h => hmin acc h | _ => acc end) s acc = Some h ->
+  acc = Some h \/ exists v, In (KCons h, v) s.
+Proof.
+  induction s as [|[k v] s IH]; intros acc h; cbn; [auto|].
+  intro H. apply IH in H. destruct H as [H|[v' H]]; [|right; eauto].
+  destruct k; auto. destruct (hmin_cases acc h0) as [E|E]; rewrite E in H; [auto|].
+  inversion H; subst. right. exists v. left. reflexivity.
+Qed.
+
+Lemma first_cons_In s h : first_cons s = Some h -> exists v, In (KCons h, v) s.
+Proof. intro H. apply first_cons_acc in H. destruct H as [H|H]; [discriminate | exact H]. Qed.
+
+Lemma first_iter_acc (s : cstore) : forall acc h,
+  fold_left (fun acc (kv : ckey * value) => match fst kv with KIter h => hmin acc h | _ => acc end) s acc = Some h ->
+  acc = Some h \/ exists v, In (KIter h, v) s.
+Proof.
+  induction s as [|[k v] s IH]; intros acc h; cbn; [auto|].
+  intro H. apply IH in H. destruct H as [H|[v' H]]; [|right; eauto].
+  destruct k; auto. destruct (hmin_cases acc h0) as [E|E]; rewrite E in H; [auto|].
+  inversion H; subst. right. exists v. left. reflexivity.
+Qed.
+
+Lemma first_iter_In s h : first_iter s = Some h -> exists v, In (KIter h, v) s.
+Proof. intro H. apply first_iter_acc in H. destruct H as [H|H]; [discriminate | exact H]. Qed.
+
+(** with consensus states of one type only, the pruning step of BSC / ETH cannot fail *)
+Lemma prune_target_ok t trusting tnow s : all_cons t s -> exists p, prune_target t trusting tnow s = Ok p.
+Proof.
+  intro A. unfold prune_target. destruct (first_cons s) as [h|] eqn:F; [|eauto].
+  destruct (first_cons_In _ _ F) as [v Hv]. destruct (In_sget _ _ _ Hv) as [v' Hg].
+  destruct (all_cons_get t h s v' A Hg) as [cs ->]. eauto.
+Qed.
+
+(** Tendermint: every iteration key has its consensus state *)
+Definition iter_ok (s : cstore) : Prop := forall h, sget (KIter h) s <> None -> exists cs, get_cons TM h s = Some cs.
+
+Lemma tm_prune_ok trusting tnow s : iter_ok s -> exists s', tm_prune trusting tnow s = Ok s'.
+Proof.
+  intro A. unfold tm_prune. destruct (first_iter s) as [h|] eqn:F; [|eauto].
+  destruct (first_iter_In _ _ F) as [v Hv]. destruct (In_sget _ _ _ Hv) as [v' Hg].
+  destruct (A h) as [cs ->]; [rewrite Hg; discriminate|].
+  destruct (cs_ts cs + trusting <=? tnow); eauto.
+Qed.
+
+(** * A valid update from the authorised account succeeds (all four types) *)
+Definition authorised (st : state) (name signer : bytes) : Prop :=
+  exists cs, aget signer (relayers st) = Some cs /\ bmem name cs = true.
+
+(** "the header is valid for the stored client": the checks the lifecycle layer can state (links to the
+    installed / last header, the trusted consensus state, recent signers, header index); the inside of the
+    light clients' verification is the oracle bit of the header, required to be [true]. *)
+Definition header_valid_for (tnow : N) (c : client_state) (h : hdr) (s : cstore) : Prop :=
+  match c, h with
+  | ClTss _ _, HTss _ _ => True
+  | ClTm latest trusting drift _ _, HTm trusted hh cns hv =>
+      hv = true /\ exists tc, get_cons TM trusted s = Some tc /\ fst hh = fst trusted /\ h_lt trusted hh = true /\
+                              tnow < cs_ts tc + trusting /\ cs_ts tc < cs_ts cns /\ cs_ts cns <= tnow + drift
+  | ClBsc cur epoch vals _ _, HEvm BSC hd hv =>
+      hv = true /\ epoch <> 0 /\
+      snd (eh_height cur) = sub64 (snd (eh_height hd)) 1 /\ eh_hash cur = eh_parent hd /\
+      eh_signer hd = Some (eh_coinbase hd) /\ bmem (eh_coinbase hd) vals = true /\
+      existsb (fun ha => bytes_eqb (snd ha) (eh_coinbase hd) &&
+                         ((snd (eh_height hd) <? lenN (bdistinct vals) / 2 + 1)
+                          || (snd (eh_height hd) - (lenN (bdistinct vals) / 2 + 1) <? snd (fst ha)))) (signers s) = false /\
+      (snd (eh_height hd) mod epoch = 0 -> exists vs, eh_vals hd = Some vs)
+  | ClEth cur _ _ _, HEvm ETH hd hv =>
+      hv = true /\ eh_hash cur = eh_parent hd /\ snd (eh_height cur) = sub64 (snd (eh_height hd)) 1 /\
+      sget (KHIdx (eh_hash cur) (snd (eh_height cur))) s = Some (VHeader cur) /\ eh_time cur < eh_time hd
+  | _, _ => False
+  end.
+
+(** the store holds consensus states of the client's type only (what a toggle that clears the store and
+    well-typed proposals guarantee, see [clean_reachable]); Tendermint: every iteration key has its
+    consensus state; ETH: every consensus state has its root-main entry (true when the installed consensus
+    state carries the root of the installed header). *)
+Definition store_clean (c : client_state) (s : cstore) : Prop :=
+  all_cons (type_of c) s /\
+  match c with
+  | ClTm _ _ _ _ _ => iter_ok s
+  | ClEth _ _ _ _ =>
+      forall h cs, get_cons ETH h s = Some cs -> exists hash n, sget (KRootMain (cs_root cs) (snd h)) s = Some (VRefHIdx hash n)
+  | _ => True
+  end.
+
+(** what a successful update leaves *)
+Definition updated (c : client_state) (h : hdr) (s' : cstore) : Prop :=
+  match c, h with
+  | ClTss _ _, HTss addr rest => sget KClient s' = Some (VClient (ClTss addr rest))          (* the key is rotated *)
+  | ClTm latest trusting drift delay rest, HTm _ hh cns _ =>
+      sget KClient s' = Some (VClient (ClTm (if h_lt latest hh then hh else latest) trusting drift delay rest)) /\
+      sget (KCons hh) s' = Some (VCons (as_tm cns))
+  | ClBsc _ epoch _ trusting rest, HEvm BSC hd _ =>
+      (exists vals', sget KClient s' = Some (VClient (ClBsc hd epoch vals' trusting rest))) /\
+      sget (KCons (eh_height hd)) s' =
+        Some (VCons {| cs_type := BSC; cs_ts := eh_time hd; cs_root := eh_root hd; cs_dg := eh_cons_dg hd |})
+  | ClEth _ bd trusting rest, HEvm ETH hd _ =>
+      sget KClient s' = Some (VClient (ClEth hd bd trusting rest)) /\
+      sget (KCons (eh_height hd)) s' =
+        Some (VCons {| cs_type := ETH; cs_ts := eh_time hd; cs_root := eh_root hd; cs_dg := eh_cons_dg hd |})
+  | _, _ => False
+  end.
+
+Lemma status_active_cons tnow c s :
+  status tnow c s = 0%nat ->
+  match c with
+  | ClTm l _ _ _ _ => exists cs, get_cons TM l s = Some cs
+  | ClBsc hd _ _ _ _ => exists cs, get_cons BSC (eh_height hd) s = Some cs
+  | ClEth hd _ _ _ => exists cs, get_cons ETH (eh_height hd) s = Some cs
+  | ClTss _ _ => True
+  end.
+Proof.
+  destruct c as [l t d y r | hd e v t r | hd b t r | a r]; cbn; try exact (fun _ => I).
+  - destruct (get_cons TM l s); [eauto | discriminate].
+  - destruct (get_cons BSC (eh_height hd) s); [eauto | discriminate].
+  - destruct (get_cons ETH (eh_height hd) s); [eauto | discriminate].
+Qed.
+
+Lemma eth_prune_ok trusting tnow s :
+  all_cons ETH s ->
+  (forall h cs, get_cons ETH h s = Some cs -> exists hash n, sget (KRootMain (cs_root cs) (snd h)) s = Some (VRefHIdx hash n)) ->
+  exists s', eth_prune trusting tnow s = Ok s'.
+Proof.
+  intros A R. unfold eth_prune. destruct (prune_target_ok ETH trusting tnow s A) as [p E]. rewrite E. cbn.
+  destruct p as [h|]; [|eauto].
+  unfold prune_target in E. destruct (first_cons s) as [h'|]; [|discriminate].
+  destruct (get_cons ETH h' s) as [cs|] eqn:G; [|discriminate].
+  destruct (evm_expired (cs_ts cs) trusting tnow); inversion E; subst.
+  rewrite G. destruct (R _ _ G) as (hash & n & ->). eauto.
+Qed.
+
+Lemma check_header_valid tnow c h s :
+  status tnow c s = 0%nat -> store_clean c s -> header_valid_for tnow c h s ->
+  exists c' cns s1, check_header_and_update tnow c h s = Ok (c', cns, s1) /\
+    match c, h with
+    | ClTss _ _, HTss addr rest => c' = ClTss addr rest /\ cns = None
+    | ClTm latest trusting drift delay rest, HTm _ hh k _ =>
+        c' = ClTm (if h_lt latest hh then hh else latest) trusting drift delay rest /\ cns = Some (as_tm k)
+    | ClBsc _ epoch _ trusting rest, HEvm BSC hd _ =>
+        (exists vals', c' = ClBsc hd epoch vals' trusting rest) /\
+        cns = Some {| cs_type := BSC; cs_ts := eh_time hd; cs_root := eh_root hd; cs_dg := eh_cons_dg hd |}
+    | ClEth _ bd trusting rest, HEvm ETH hd _ =>
+        c' = ClEth hd bd trusting rest /\
+        cns = Some {| cs_type := ETH; cs_ts := eh_time hd; cs_root := eh_root hd; cs_dg := eh_cons_dg hd |}
+    | _, _ => False
+    end.
+Proof.
+  intros St [A C] V. apply status_active_cons in St.
+  destruct c as [l t d y r | cur e v t r | cur b t r | a r];
+    destruct h as [trusted hh k hv | et hd hv | addr rest]; cbn in V; try contradiction.
+  - (* Tendermint *)
+    destruct V as (-> & tc & G & R & L & T1 & T2 & T3). cbn. unfold tm_update. rewrite G, R, N.eqb_refl, L.
+    destruct (N.leb_spec (cs_ts tc + t) tnow); [lia|].
+    destruct (N.ltb_spec (cs_ts tc) (cs_ts k)); [|lia].
+    destruct (N.leb_spec (cs_ts k) (tnow + d)); [|lia]. cbn.
+    destruct (tm_prune_ok t tnow s C) as [s1 ->]. cbn. eauto 6.
+  - (* BSC *)
+    destruct et; try contradiction.
+    destruct V as (-> & He & Hn & Hh & Hs & Hm & Hr & Hv). destruct St as [cc G].
+    cbn. unfold bsc_update. rewrite G.
+    destruct (N.eqb_spec e 0); [contradiction|]. cbn.
+    rewrite Hn, N.eqb_refl, Hh, bytes_eqb_refl, Hs, bytes_eqb_refl, Hm. cbn. rewrite Hr.
+    set (s1 := sset (KSigner (eh_height hd)) (VAddr (eh_coinbase hd)) s).
+    assert (A1 : all_cons BSC s1) by (apply all_cons_sset_other; [intros; discriminate | exact A]).
+    destruct (prune_target_ok BSC t tnow s1 A1) as [p ->]. cbn.
+    destruct (N.eqb_spec (snd (eh_height hd) mod e) 0) as [M|M].
+    + destruct (Hv M) as [vs ->]. cbn.
+      destruct (snd (eh_height hd) mod e =? lenN v / 2); cbn; eauto 8.
+    + cbn. destruct (snd (eh_height hd) mod e =? lenN v / 2); cbn; eauto 8.
+  - (* ETH *)
+    destruct et; try contradiction.
+    destruct V as (-> & Hh & Hn & Hi & Ht). destruct St as [cc G].
+    cbn. unfold eth_update. rewrite G. cbn. rewrite <- Hh, <- Hn, Hi, bytes_eqb_refl. cbn.
+    destruct (N.leb_spec (eh_time hd) (eh_time cur)); [lia|].
+    destruct (eth_prune_ok t tnow s A C) as [s1 ->]. cbn.
+    unfold eth_is_fork. rewrite Hh, bytes_eqb_refl. cbn. eauto 6.
+  - cbn. eauto 6.
+Qed.
+
+Lemma valid_update_succeeds cf st name c h signer :
+  f_tss_height cf = true -> authorised st name signer ->
+  sget KClient (store_of st name) = Some (VClient c) ->
+  (forall a r, c = ClTss a r -> a = signer) ->
+  status (now st) c (store_of st name) = 0%nat ->
+  store_clean c (store_of st name) -> header_valid_for (now st) c h (store_of st name) ->
+  exists st', step cf st (Update name h signer true) = (0%nat, st') /\ updated c h (store_of st' name).
+Proof.
+  intros F (cs & Ha & Hb) Hc Hs St Cl V.
+  destruct (check_header_valid _ _ _ _ St Cl V) as (c' & cns & s1 & E & R).
+  unfold step, exec. cbn. rewrite Ha, Hb, Hc. cbn.
+  assert (Sg : (match c with ClTss addr _ => bytes_eqb addr signer | _ => true end) = true).
+  { destruct c; try reflexivity. rewrite (Hs _ _ eq_refl). apply bytes_eqb_refl. }
+  rewrite Sg. cbn. unfold keeper_update. rewrite Hc, St. cbn. rewrite E. cbn.
+  destruct c as [l t d y r | cur e v t r | cur b t r | a r];
+    destruct h as [trusted hh k hv | et hd hv | addr rest]; try contradiction;
+    try (destruct et; try contradiction); cbn [hdr_height].
+  - destruct R as [-> ->]. eexists. split; [reflexivity|]. rewrite store_of_with_same. cbn. split; sg; reflexivity.
+  - destruct R as [[vals' ->] ->]. eexists. split; [reflexivity|]. rewrite store_of_with_same. cbn.
+    split; [exists vals'|]; sg; reflexivity.
+  - destruct R as [-> ->]. eexists. split; [reflexivity|]. rewrite store_of_with_same. cbn. split; sg; reflexivity.
+  - destruct R as [-> ->]. rewrite F. eexists. split; [reflexivity|]. rewrite store_of_with_same. cbn. sg. reflexivity.
+Qed.
+
+(** * In every reachable state (repaired code) a client store holds consensus states of the client's type
+      only, and every Tendermint iteration key has its consensus state *)
+Definition typed_clean (c : client_state) (s : cstore) : Prop :=
+  all_cons (type_of c) s /\ (type_of c = TM -> iter_ok s) /\ (type_of c = TSS -> forall h, sget (KCons h) s = None).
+
+Definition clean_state (st : state) : Prop :=
+  forall n c, sget KClient (store_of st n) = Some (VClient c) -> typed_clean c (store_of st n).
+
+Ltac sd := repeat (rewrite sget_sdel; cbn [ckey_eqb]).
+
+Lemma iter_ok_put tnow h cns c s :
+  iter_ok s -> cs_type cns = TM ->
+  iter_ok (sset (KCons h) (VCons cns) (sset KClient (VClient c) (set_tm_meta tnow h s))).
+Proof.
+  intros A T h' Hne. unfold get_cons, set_tm_meta in *. revert Hne. sg.
+  destruct (h_eqb_spec h' h) as [->|N]; cbn.
+  - intros _. rewrite T. cbn. eauto.
+  - intro Hne. apply A in Hne. exact Hne.
+Qed.
+
+Lemma tm_prune_iter_ok trusting tnow s s' : iter_ok s -> tm_prune trusting tnow s = Ok s' -> iter_ok s'.
+Proof.
+  intros A. unfold tm_prune. destruct (first_iter s) as [h0|]; [|intro H; inversion H; subst; exact A].
+  destruct (get_cons TM h0 s) as [cs|]; [|discriminate].
+  destruct (cs_ts cs + trusting <=? tnow); intro H; inversion H; subst; [|exact A].
+  intros h Hne. unfold get_cons in *. revert Hne. sd.
+  destruct (h_eqb_spec h h0) as [->|N]; cbn; [intro X; contradiction|].
+  intro Hne. apply A in Hne. exact Hne.
+Qed.
+
+Lemma tm_prune_all_cons t trusting tnow s s' : all_cons t s -> tm_prune trusting tnow s = Ok s' -> all_cons t s'.
+Proof.
+  intros A. unfold tm_prune. destruct (first_iter s) as [h0|]; [|intro H; inversion H; subst; exact A].
+  destruct (get_cons TM h0 s) as [cs|]; [|discriminate].
+  destruct (cs_ts cs + trusting <=? tnow); intro H; inversion H; subst; [|exact A].
+  repeat apply all_cons_sdel. exact A.
+Qed.
+
+Lemma fresh_store_clean tnow c cns : cs_type cns = type_of c -> typed_clean c (fresh_store tnow c cns).
+Proof.
+  intro T. split; [|split].
+  - intros h v H. destruct c; cbn in H;
+      repeat (destruct H as [H|H]; [inversion H; subst; eauto|]); contradiction.
+  - intros Tm h Hne. destruct c as [l t d y r | | |]; try discriminate. cbn in *. unfold get_cons. cbn in *.
+    destruct (h_eqb h l); cbn in *.
+    + rewrite T. cbn. eauto.
+    + exfalso. apply Hne. reflexivity.
+  - intros Ts h. destruct c; try discriminate. reflexivity.
+Qed.
+
+Lemma fresh_store_client tnow c cns : sget KClient (fresh_store tnow c cns) = Some (VClient c).
+Proof. destruct c; reflexivity. Qed.
+
+Lemma all_cons_bsc_install t hd e s s' : all_cons t s -> bsc_install hd e s = Ok s' -> all_cons t s'.
+Proof.
+  intros A H. apply bsc_install_ok in H. destruct H as (_ & _ & _ & vs & _ & ->).
+  repeat (apply all_cons_sset_other; [intros; discriminate|]). exact A.
+Qed.
+
+Lemma upgrade_client_clean cf tnow c cns s s' old :
+  f_upgrade_tss_nocons cf = true ->
+  sget KClient s = Some (VClient old) -> typed_clean old s -> cs_type cns = type_of c ->
+  upgrade_client cf tnow c cns s = Ok s' -> typed_clean c s'.
+Proof.
+  intros F Ho (A & C & D) T. unfold upgrade_client. rewrite Ho.
+  destruct (ctype_eqb_spec (type_of old) (type_of c)) as [Te|]; [|discriminate]. cbn.
+  destruct (upgrade_state cf tnow c s) as [s1| |] eqn:E; cbn; try discriminate.
+  rewrite F. intro H; inversion H; subst; clear H. rewrite Te in A, C, D.
+  assert (A1 : all_cons (type_of c) s1).
+  { destruct c as [l t d y r | hd e v t r | hd b t r | a r]; cbn in E.
+    - inversion E; subst. destruct (f_tm_upgrade_meta cf); [|exact A].
+      unfold set_tm_meta. repeat (apply all_cons_sset_other; [intros; discriminate|]). exact A.
+    - destruct (e =? 0); [discriminate|]. destruct (negb _); [discriminate|].
+      destruct (prune_target BSC t tnow s) as [p| |]; cbn in E; try discriminate.
+      eapply all_cons_bsc_install; [|exact E]. apply all_cons_filter.
+      destruct p; [apply all_cons_sdel|]; exact A.
+    - inversion E; subst. unfold eth_install. repeat (apply all_cons_sset_other; [intros; discriminate|]). exact A.
+    - inversion E; subst. exact A. }
+  split; [|split].
+  - destruct (ctype_eqb (type_of c) TSS); cbn.
+    + apply all_cons_sset_other; [intros; discriminate | exact A1].
+    + unfold put_cons. apply all_cons_sset_cons; [exact T|]. apply all_cons_sset_other; [intros; discriminate | exact A1].
+  - intro Tm. destruct c as [l t d y r | | |]; try discriminate. cbn in *. inversion E; subst.
+    specialize (C eq_refl). unfold put_cons; cbn.
+    destruct (f_tm_upgrade_meta cf).
+    + apply iter_ok_put; assumption.
+    + (* pinned Tendermint UpgradeState: no new iteration key *)
+      intros h Hne. unfold get_cons in *. revert Hne. sg. intro Hne. apply C in Hne.
+      destruct (h_eqb_spec h l) as [->|N]; cbn; [rewrite T; cbn; eauto | exact Hne].
+  - intro Ts. destruct c as [| | |a r]; try discriminate. cbn in *. inversion E; subst.
+    intro h. rewrite sget_sdel_other by discriminate. apply D. reflexivity.
+Qed.
+
+Lemma all_cons_eth_prune trusting tnow s s' : all_cons ETH s -> eth_prune trusting tnow s = Ok s' -> all_cons ETH s'.
+Proof.
+  intros A. unfold eth_prune. destruct (prune_target ETH trusting tnow s) as [p| |]; cbn; try discriminate.
+  destruct p as [h|]; [|intro H; inversion H; subst; exact A].
+  destruct (get_cons ETH h s) as [cs|]; [|discriminate].
+  destruct (sget (KRootMain (cs_root cs) (snd h)) s) as [[| | | | | | |hash n]|]; try discriminate.
+  intro H; inversion H; subst. repeat apply all_cons_sdel. exact A.
+Qed.
+
+Lemma keeper_update_clean cf tnow h s s' c :
+  sget KClient s = Some (VClient c) -> typed_clean c s ->
+  keeper_update cf tnow h s = Ok s' ->
+  exists c', sget KClient s' = Some (VClient c') /\ typed_clean c' s'.
+Proof.
+  intros Hc (A & C & D). unfold keeper_update. rewrite Hc.
+  destruct (negb (Nat.eqb (status tnow c s) 0)); [discriminate|].
+  destruct (check_header_and_update tnow c h s) as [[[c' cns] s1]| |] eqn:E; cbn; try discriminate.
+  destruct (hdr_height cf h) as [hh|] eqn:Hh; [|discriminate].
+  intro H; inversion H; subst; clear H.
+  destruct c as [l t d y r | cur e v t r | cur b t r | a r];
+    destruct h as [trusted hx k hv | et hd hv | addr rest]; cbn in E; try discriminate.
+  - (* Tendermint *)
+    unfold tm_update in E. destruct (get_cons TM trusted s) as [tc|]; [|discriminate].
+    destruct (negb _); [discriminate|].
+    destruct (tm_prune t tnow s) as [s0| |] eqn:P; cbn in E; try discriminate.
+    inversion E; subst; clear E. cbn in Hh. inversion Hh; subst.
+    eexists. split; [sg; reflexivity|]. split; [|split]; cbn.
+    + apply all_cons_sset_cons; [reflexivity|]. apply all_cons_sset_other; [intros; discriminate|].
+      unfold set_tm_meta. repeat (apply all_cons_sset_other; [intros; discriminate|]).
+      eapply tm_prune_all_cons; eassumption.
+    + intros _. apply iter_ok_put; [|reflexivity]. eapply tm_prune_iter_ok; [|exact P]. apply C. reflexivity.
+    + intro X; discriminate.
+  - (* BSC *)
+    destruct et; try discriminate. unfold bsc_update in E.
+    destruct (get_cons BSC (eh_height cur) s); [|discriminate].
+    destruct (e =? 0); [discriminate|]. destruct (negb hv); [discriminate|]. destruct (negb _); [discriminate|].
+    destruct (eh_signer hd) as [sg0|]; [|discriminate].
+    destruct (negb _); [discriminate|]. destruct (negb _); [discriminate|]. destruct (existsb _ _); [discriminate|].
+    set (s1' := sset (KSigner (eh_height hd)) (VAddr sg0) s) in *.
+    assert (A1 : all_cons BSC s1') by (apply all_cons_sset_other; [intros; discriminate | exact A]).
+    destruct (prune_target BSC t tnow s1') as [p| |]; cbn [obind] in E; try discriminate.
+    set (s2 := match p with Some h0 => sdel (KCons h0) s1' | None => s1' end) in *.
+    assert (A2 : all_cons BSC s2) by (subst s2; destruct p; [apply all_cons_sdel|]; exact A1).
+    destruct (if snd (eh_height hd) mod e =? 0
+              then match eh_vals hd with None => Err | Some vs => Ok (sset KPending (VVals vs) s2) end
+              else Ok s2) as [s3| |] eqn:E3; cbn [obind] in E; try discriminate.
+    assert (A3 : all_cons BSC s3).
+    { destruct (snd (eh_height hd) mod e =? 0).
+      - destruct (eh_vals hd); [|discriminate]. inversion E3; subst.
+        apply all_cons_sset_other; [intros; discriminate | exact A2].
+      - inversion E3; subst. exact A2. }
+    cbn in Hh. inversion Hh; subst; clear Hh.
+    destruct (snd (eh_height hd) mod e =? lenN v / 2); cbn [obind] in E; inversion E; subst; clear E.
+    + eexists. split; [sg; reflexivity|]. split; [|split; intro X; discriminate]. cbn.
+      apply all_cons_sset_cons; [reflexivity|]. apply all_cons_sset_other; [intros; discriminate|].
+      match goal with |- all_cons BSC (if ?c then _ else _) => destruct c end;
+        [apply all_cons_sdel|]; (destruct (_ <? _); [apply all_cons_del_range|]; exact A3).
+    + eexists. split; [sg; reflexivity|]. split; [|split; intro X; discriminate]. cbn.
+      apply all_cons_sset_cons; [reflexivity|]. apply all_cons_sset_other; [intros; discriminate|].
+      match goal with |- all_cons BSC (if ?c then _ else _) => destruct c end; [apply all_cons_sdel|]; exact A3.
+  - (* ETH *)
+    destruct et; try discriminate. unfold eth_update in E.
+    destruct (get_cons ETH (eh_height cur) s); [|discriminate].
+    destruct (negb hv); [discriminate|].
+    destruct (sget (KHIdx (eh_parent hd) (sub64 (snd (eh_height hd)) 1)) s) as [[| | | | | |ph|]|]; try discriminate.
+    destruct (negb _); [discriminate|]. destruct (eh_time hd <=? eh_time ph); [discriminate|].
+    destruct (eth_prune t tnow s) as [s0| |] eqn:P; cbn in E; try discriminate.
+    destruct (eth_is_fork cur hd); [discriminate|]. inversion E; subst; clear E.
+    cbn in Hh. inversion Hh; subst; clear Hh.
+    eexists. split; [sg; reflexivity|]. split; [|split; intro X; discriminate]. cbn.
+    apply all_cons_sset_cons; [reflexivity|]. apply all_cons_sset_other; [intros; discriminate|].
+    unfold eth_install. repeat (apply all_cons_sset_other; [intros; discriminate|]).
+    eapply all_cons_eth_prune; eassumption.
+  - (* TSS *)
+    inversion E; subst; clear E. eexists. split; [sg; reflexivity|]. split; [|split; [intro X; discriminate|]]; cbn.
+    + apply all_cons_sset_other; [intros; discriminate | exact A].
+    + intros _ h0. rewrite sget_sdel_other by discriminate. apply D. reflexivity.
+Qed.
+
+Lemma clean_state_step cf st o :
+  f_toggle_new cf = true -> f_toggle_clear cf = true -> f_cons_type_check cf = true -> f_upgrade_tss_nocons cf = true ->
+  wf_state st -> clean_state st -> clean_state (snd (step cf st o)).
+Proof.
+  intros F1 F2 F3 F4 W Cl. unfold step. destruct (exec cf st o) as [st'| |] eqn:E; cbn; try exact Cl.
+  destruct o as [p|p|p|addr chains wfb|name h signer vb|dt].
+  - apply create_spec in E; try assumption. destruct E as (_ & _ & _ & T & _ & ->).
+    intros n c. destruct (bytes_eqb_spec n (p_name p)) as [->|N].
+    + rewrite store_of_with_same, fresh_store_client. intro H; inversion H; subst. apply fresh_store_clean, T.
+    + rewrite store_of_with_other by exact N. apply Cl.
+  - pose proof E as E0. unfold exec in E.
+    destruct (negb (valid_name (p_name p) && p_validate p)); [discriminate|].
+    unfold types_agree in E. rewrite F3 in E. cbn in E.
+    destruct (ctype_eqb_spec (cs_type (p_cons p)) (type_of (p_client p))) as [T|]; [|discriminate]. cbn in E.
+    destruct (upgrade_client cf (now st) (p_client p) (p_cons p) (store_of st (p_name p))) as [s'| |] eqn:U; cbn in E; try discriminate.
+    inversion E; subst; clear E.
+    intros n c. destruct (bytes_eqb_spec n (p_name p)) as [->|N].
+    + rewrite store_of_with_same, (upgrade_client_has _ _ _ _ _ _ U). intro H; inversion H; subst.
+      pose proof U as U1. unfold upgrade_client in U1.
+      destruct (sget KClient (store_of st (p_name p))) as [[old| | | | | | |]|] eqn:Ho; try discriminate.
+      eapply upgrade_client_clean; try eassumption. apply Cl. exact Ho.
+    + rewrite store_of_with_other by exact N. apply Cl.
+  - apply toggle_spec in E; try assumption. destruct E as (old & _ & _ & _ & _ & T & _ & ->).
+    intros n c. destruct (bytes_eqb_spec n (p_name p)) as [->|N].
+    + rewrite store_of_with_same, fresh_store_client. intro H; inversion H; subst. apply fresh_store_clean, T.
+    + rewrite store_of_with_other by exact N. apply Cl.
+  - unfold exec in E. destruct (negb _); [discriminate|]. inversion E; subst. exact Cl.
+  - unfold exec in E. destruct (negb vb); [discriminate|]. destruct (negb _); [discriminate|].
+    destruct (sget KClient (store_of st name)) as [[c0| | | | | | |]|] eqn:Hc; try discriminate.
+    destruct (negb _); [discriminate|].
+    destruct (keeper_update cf (now st) h (store_of st name)) as [s'| |] eqn:U; cbn in E; try discriminate.
+    inversion E; subst; clear E.
+    intros n c. destruct (bytes_eqb_spec n name) as [->|N].
+    + rewrite store_of_with_same.
+      destruct (keeper_update_clean _ _ _ _ _ _ Hc (Cl _ _ Hc) U) as (c' & Hc' & Cc). rewrite Hc'.
+      intro H; inversion H; subst. exact Cc.
+    + rewrite store_of_with_other by exact N. apply Cl.
+  - unfold exec in E. inversion E; subst. exact Cl.
+Qed.
+
+Lemma clean_reachable cf os :
+  f_toggle_new cf = true -> f_toggle_clear cf = true -> f_cons_type_check cf = true -> f_upgrade_tss_nocons cf = true ->
+  forall st, wf_state st -> clean_state st -> clean_state (run cf st os).
+Proof.
+  intros F1 F2 F3 F4. induction os as [|o os IH]; intros st W Cl; cbn; [exact Cl|].
+  apply IH; [apply wf_state_step, W | apply clean_state_step; assumption].
+Qed.
+
+Lemma clean_state_empty t : clean_state (empty_state t).
+Proof. intros n c H. discriminate. Qed.
